@@ -33,7 +33,7 @@ ASSUMPTIONS = [
 
 DOMAIN = {
     "Text": ["a", "b"],
-    "Number": [1, 2.5],
+    "Number": [1, 2.5, 1.0, 2.5],  # 1 and 1.0 are the same value
     "Switch": ["On", "Off"],
     "Light": ["Ok", "Busy"],
     "BLOB": ["78", "79"],  # hex
@@ -42,7 +42,7 @@ WIRE = {"Text": ["a", "b"], "Number": ["1", "2.5"], "Switch": ["On", "Off"]}
 
 
 def py_value(kind, i):
-    v = DOMAIN[kind][i % 2]
+    v = DOMAIN[kind][i % len(DOMAIN[kind])]
     if kind == "BLOB":
         from indi.device import values
 
@@ -267,6 +267,33 @@ def check_contract(case):
                 if changes:
                     raise Failure("veto-ignored:change-raised", f"{where}: {changes}")
                 continue
+            # -- Read before publication: plain Read handlers of every element of the vector run before an update is
+            # published, and what a refreshing one sets is what the update carries
+            exclusive = kind == "Switch" and case.get("rule", "AnyOfMany") != "AnyOfMany"
+            if pubs and not vetoed:
+                for j in (0, 1):
+                    plain_r = handlers_for(case, "Read", j, coro=False)
+                    ran = [en["h"] for en in sync_trace if en["ev"] == "Read" and en["el"] == f"E{j}" and en["published_now"] == pub_before]
+                    for h in plain_r:
+                        if h not in ran:
+                            raise Failure("read-handler-not-run-before-publication", f"{where}: plain Read handler {h} of E{j} did not run before the update was published (sync trace {[(en['h'], en['ev'], en['el']) for en in sync_trace]})")
+                    refreshers = [h for h in plain_r if case["handlers"][h].get("refresh")]
+                    if refreshers and not exclusive:
+                        want_r = py_value(kind, case["handlers"][refreshers[-1]]["refresh"] - 1)
+                        child = [c for c in pubs[0].children if c.name == f"E{j}"]
+                        if child:
+                            if kind == "BLOB":
+                                import base64
+
+                                okr = base64.b64decode(child[0].value or "") == want_r.binary
+                            elif kind == "Number":
+                                from harness import refnum
+
+                                okr = abs(refnum.parse(str(child[0].value)) - float(want_r)) < 1e-6
+                            else:
+                                okr = child[0].value == want_r
+                            if not okr:
+                                raise Failure("publication-carries-stale-value", f"{where}: E{j} published as {str(child[0].value)[:40]!r}, its Read handler refreshed it to {norm(kind, want_r)!r}")
             if has_refresh:
                 continue  # a refreshing Read handler overrides the written value by design; not modelled further
             requested = new
@@ -339,7 +366,7 @@ handler_st = st.fixed_dictionaries(
     }
 )
 op_st = st.fixed_dictionaries(
-    {"op": st.sampled_from(["client", "client", "set_value", "assign", "read"]), "inst": st.integers(0, 1), "e": st.integers(0, 1), "val": st.integers(0, 1)}
+    {"op": st.sampled_from(["client", "client", "set_value", "assign", "read"]), "inst": st.integers(0, 1), "e": st.integers(0, 1), "val": st.integers(0, 3)}
 )
 
 
